@@ -26,11 +26,15 @@ CMPOPS = {ast.Eq: "==", ast.NotEq: "!=", ast.Lt: "<", ast.LtE: "≤", ast.Gt: ">
 
 
 class Tr:
-    def __init__(self, module, self_fields, sibling_methods):
+    def __init__(self, module, self_fields, sibling_methods, module_funcs=None, elem_methods=None, tuple_ctors=()):
         self.module = module
         self.locals = set()
         self.self_fields = self_fields          # {"_status": "status"}
         self.siblings = sibling_methods         # {"isFree": "isFree"}: methods of the same class taking the fields
+        self.module_funcs = module_funcs or {}  # {"_computeRequiredSlots": ("computeRequiredSlots", "tuple")}: translated functions
+        self.elem_methods = elem_methods or {}  # {"isFree": ("isFree", "bool")}: methods of the elements of an iterated list
+        self.tuple_ctors = set(tuple_ctors)     # constructors of plain records, translated to tuples
+        self.elems = set()                      # loop variables ranging over such elements
 
     # ---- constants --------------------------------------------------------------------------------------------------
     def const(self, node):
@@ -103,6 +107,18 @@ class Tr:
             f = e.func
             if isinstance(f, ast.Attribute) and isinstance(f.value, ast.Name) and f.value.id == "self" and f.attr in self.siblings and not e.args:
                 return f"({self.siblings[f.attr][0]} {' '.join(self.self_fields.values())})", self.siblings[f.attr][1]
+            if isinstance(f, ast.Name) and f.id in self.module_funcs and not e.keywords:
+                args = [self.expr(a) for a in e.args]
+                if any(k != "nat" for _, k in args):
+                    raise Untranslatable("argument of a translated function")
+                name, kind = self.module_funcs[f.id]
+                return f"({name} {' '.join(t for t, _ in args)})", kind
+            if isinstance(f, ast.Name) and f.id in self.tuple_ctors and not e.keywords:
+                vals = [self.expr(v) for v in e.args]
+                return "(" + ", ".join(t for t, _ in vals) + ")", "tuple"
+            if isinstance(f, ast.Attribute) and isinstance(f.value, ast.Name) and f.value.id in self.elems and f.attr in self.elem_methods and not e.args:
+                name, kind = self.elem_methods[f.attr]
+                return f"({name} {f.value.id})", kind
             if isinstance(f, ast.Name) and f.id == "divmod" and len(e.args) == 2:
                 a, _ = self.expr(e.args[0])
                 b, _ = self.expr(e.args[1])
@@ -162,7 +178,39 @@ class Tr:
             t, _ = self.expr(s.body[0].value)
             self.locals.discard(x)
             return f"{pad}let {acc} := {s.iter.id}.foldl (fun {acc} {x} => {t}) {acc}\n" + self.block(rest, indent)
+        if isinstance(s, ast.For) and isinstance(s.target, ast.Name) and not s.orelse and self.iter_name(s.iter) is not None:
+            # a loop whose body only updates accumulators (possibly under if/elif/else): a fold over the tuple of accumulators
+            accs = []
+            for n in ast.walk(ast.Module(body=s.body, type_ignores=[])):
+                if isinstance(n, (ast.Assign, ast.AugAssign)):
+                    tg = n.targets[0] if isinstance(n, ast.Assign) else n.target
+                    if not isinstance(tg, ast.Name):
+                        raise Untranslatable("loop assignment target")
+                    if tg.id not in accs:
+                        accs.append(tg.id)
+                elif isinstance(n, (ast.Return, ast.For, ast.While, ast.Break, ast.Continue)):
+                    raise Untranslatable("control flow inside a loop")
+            if not accs or any(a not in self.locals for a in accs):
+                raise Untranslatable("loop accumulators")
+            x = s.target.id
+            saved = (set(self.locals), dict(self.kinds), set(self.elems))
+            self.locals.add(x)
+            self.kinds[x] = "nat"
+            self.elems.add(x)
+            ret = ast.Return(value=ast.Tuple(elts=[ast.Name(id=a, ctx=ast.Load()) for a in accs], ctx=ast.Load()) if len(accs) > 1
+                             else ast.Name(id=accs[0], ctx=ast.Load()))
+            body = self.block(list(s.body) + [ret], indent + 2)
+            self.locals, self.kinds, self.elems = saved
+            pat = "(" + ", ".join(accs) + ")" if len(accs) > 1 else accs[0]
+            return (f"{pad}let {pat} := {self.iter_name(s.iter)}.foldl (fun {pat} {x} =>\n{body}) {pat}\n" + self.block(rest, indent))
         raise Untranslatable(type(s).__name__)
+
+    def iter_name(self, it):
+        if isinstance(it, ast.Name) and it.id in self.locals:
+            return it.id
+        if isinstance(it, ast.Attribute) and isinstance(it.value, ast.Name) and it.value.id == "self" and it.attr in self.self_fields:
+            return self.self_fields[it.attr]
+        return None
 
 
 def find_function(module, qualname):
@@ -181,18 +229,34 @@ def find_function(module, qualname):
     return node
 
 
-def translate(module_name, qualname, lean_name, params, ret, self_fields=None, siblings=None, list_params=()):
-    """params: [(python name or self-field name, lean name)], ret: lean type text"""
+def translate(module_name, qualname, lean_name, params, ret, self_fields=None, siblings=None, list_params=(),
+              module_funcs=None, elem_methods=None, tuple_ctors=(), fragment=None):
+    """params: [(python name or self-field name, lean name)], ret: lean type text.
+    fragment = (first, last, results): only the statements from the one that assigns `first` to the one that assigns `last` are
+    translated, as a function of `params` (local names of the function) returning the tuple of the names in `results`."""
     module = importlib.import_module(module_name)
     fn = find_function(module, qualname)
-    tr = Tr(module, self_fields or {}, siblings or {})
+    tr = Tr(module, self_fields or {}, siblings or {}, module_funcs, elem_methods, tuple_ctors)
     tr.kinds = {}
     args = [a.arg for a in fn.args.args if a.arg not in ("self", "cls")]
-    if self_fields is None and args != [p for p, _ in params]:
+    if self_fields is None and fragment is None and args != [p for p, _ in params]:
         raise Untranslatable(f"parameters of {qualname} are {args}")
     for p, l in params:
         tr.locals.add(l if self_fields else p)
         tr.kinds[l if self_fields else p] = "nat"
-    body = tr.block(list(fn.body), 1)
+    stmts = list(fn.body)
+    if fragment is not None:
+        first, last, results = fragment
+
+        def assigns(st, name):
+            if not isinstance(st, ast.Assign):
+                return False
+            return any(isinstance(n, ast.Name) and n.id == name for t in st.targets for n in ast.walk(t))
+        i0 = next((i for i, st in enumerate(stmts) if assigns(st, first)), None)
+        i1 = next((i for i, st in enumerate(stmts) if assigns(st, last)), None)
+        if i0 is None or i1 is None or i1 < i0:
+            raise Untranslatable(f"fragment {first}..{last} of {qualname} not found")
+        stmts = stmts[i0:i1 + 1] + [ast.Return(value=ast.Tuple(elts=[ast.Name(id=r, ctx=ast.Load()) for r in results], ctx=ast.Load()))]
+    body = tr.block(stmts, 1)
     binder = " ".join(f"({(l if self_fields else p)} : {'List Nat' if p in list_params else 'Nat'})" for p, l in params)
     return f"def {lean_name} {binder} : {ret} :=\n{body}\n"
